@@ -157,7 +157,7 @@ func (u *Unit) solve(ob *Obligation, tier string) {
 		return
 	}
 	// pure E-matching first: answers in milliseconds when the triggers fit, "unknown" otherwise
-	r := runSolver(z3em, q, t1)
+	r := runSolver(z3em, q, 2*time.Second)
 	total := r.ms
 	if r.result != "unsat" {
 		// full z3 on the variant without the access-function axiom: finds proofs by MBQI and, for
